@@ -29,6 +29,14 @@ STD_ENUMS = {
 }
 ORDERING_DISCR = {'Less': -1, 'Equal': 0, 'Greater': 1}
 
+# derive macros whose name is not the trait they implement: derive name -> [(trait, type-name suffix)]
+DERIVE_TRAITS = {
+    'AsRefStr': [('AsRef', '')],
+    'EnumString': [('FromStr', ''), ('TryFrom', '')],
+    'EnumIter': [('IntoEnumIterator', ''), ('Iterator', 'Iter'), ('DoubleEndedIterator', 'Iter'), ('ExactSizeIterator', 'Iter'), (None, 'Iter'), ('Clone', 'Iter')],
+    'Display': [('Display', '')],
+}
+
 _re_const_int = re.compile(r'(-?\d+)_(u8|u16|u32|u64|u128|usize|i8|i16|i32|i64|i128|isize)$')
 _re_impl_at = re.compile(r'<impl at (src/[^:]+):(\d+):(\d+): (\d+):(\d+)>')
 
@@ -180,9 +188,11 @@ class Interp:
                         key2 = (None, _last_seg(text))
                     self.impls.setdefault(key2, []).append(prefix)
                 else:
-                    key2 = (hd[1], hd[2])
-                    self.impls.setdefault(key2, []).append(prefix)
-                    self.derived.add(key2)
+                    dname = hd[1].split('::')[-1]
+                    for tr, ty in DERIVE_TRAITS.get(dname, [(dname, '')]):
+                        key2 = (tr, (hd[2] or '') + ty)
+                        self.impls.setdefault(key2, []).append(prefix)
+                        self.derived.add(key2)
 
     @staticmethod
     def _strip_impl_generics(text):
